@@ -94,8 +94,8 @@ func c07Run(r *Run, start uint64, depth, shard int) {
 		Actions: func(n *Node, w *World) []Action {
 			as := []Action{
 				MkSend(UserA.Str, DomEth, distinct32(0x21), []byte("a")),
-				MkSend(UserB.Str, DomEth, distinct32(0x21), long),                     // fails after the reservation
-				MkSend(UserB.Str, DomEth, make([]byte, 32), []byte("a")),               // zero recipient: fails after the reservation
+				MkSend(UserB.Str, DomEth, distinct32(0x21), long),        // fails after the reservation
+				MkSend(UserB.Str, DomEth, make([]byte, 32), []byte("a")), // zero recipient: fails after the reservation
 				MkSendWithCaller(UserB.Str, DomAvax, distinct32(0x21), []byte("b"), distinct32(0x22)),
 				MkSendWithCaller(UserB.Str, DomAvax, distinct32(0x21), []byte("b"), make([]byte, 32)), // fails before the reservation
 				MkSendWithCaller(UserB.Str, DomAvax, distinct32(0x21), long, distinct32(0x22)),        // fails after
